@@ -11,7 +11,8 @@ META = {
         'quick': 'every key of the css table (exhaustive) without scope and under @@property/@@section; every single-word dash-free keyword '
                  'alternative of every property snippet in lower/UPPER/aLtErNaTiNg case; every ordered pair of distinct user keys over '
                  '{q,w,-} (<=3 chars, starting with a letter) plus override of 6 built-in keys; every function keyword with a dash- and digit-free name typed by its '
-                 'name (alone, after a use with arguments in the same abbreviation, after such a use in an earlier call sharing the cache); user raw '
+                 'name (alone, after a use with arguments in the same abbreviation, after such a use in an earlier call sharing the cache); keywords of user property snippets '
+                 '(after anonymous tabstops, capitalised, function-shaped) in 3 letter cases; user raw '
                  'snippets: 5 bodies x 9 placeholder texts (with colons, blanks, parentheses, empty)',
         'thorough': 'the same for all six stylesheet syntaxes',
     },
@@ -281,6 +282,34 @@ def mk_user_raw():
             'functions': ['stylesheet.resolve_as_snippet', 'stylesheet.snippets.create_snippet', 'stylesheet.format.*']}
 
 
+USER_PROPS = {'bdx': 'border-x:${1} solid ${2:#000}|none', 'mk': 'mask-x:${1} url(${2}) round|none', 'Vis': 'vis-x:Hidden|shown',
+              'tq': 'tq-x:${1:a} inset|outset ${2}'}
+USER_KW = [('bdx', 'border-x', 'solid', 'solid'), ('bdx', 'border-x', 'none', 'none'), ('mk', 'mask-x', 'round', 'round'),
+           ('mk', 'mask-x', 'url', 'url()'), ('mk', 'mask-x', 'none', 'none'), ('Vis', 'vis-x', 'Hidden', 'Hidden'), ('Vis', 'vis-x', 'shown', 'shown'),
+           ('tq', 'tq-x', 'inset', 'inset'), ('tq', 'tq-x', 'outset', 'outset')]
+
+
+def mk_user_keywords():
+    """keywords listed by USER property snippets (after anonymous tabstops, capitalised, function-shaped) typed in full in three letter cases"""
+    from vf.pipe import make_css_config, expand_concrete_tokens
+
+    def harness(wrong):
+        def h(i: int, case: int):
+            if not (0 <= i < len(USER_KW) and 0 <= case <= 2):
+                return 'skip'
+            key, prop, kw, shown = USER_KW[i]
+            typed = kw if case == 0 else kw.upper() if case == 1 else kw.lower()
+            cfg = make_css_config({'type': 'stylesheet', 'snippets': dict(USER_PROPS)})
+            out = expand_concrete_tokens(key + ':' + typed, cfg)
+            exp = prop + ': ' + shown + ';' + (' ' if wrong else '')
+            return True if out == exp else 'user_keyword_not_resolved:' + key + ':' + typed
+        return h
+    return {'fn': harness(False), 'twin': harness(True), 'witnesses': [dict(i=0, case=0), dict(i=5, case=1)],
+            'assumptions': ['user property snippets %r; keyword (solver-chosen) typed as listed / UPPER / lower' % USER_PROPS],
+            'functions': ['stylesheet.snippets.collect_keywords (tabstops inside alternatives)', 'score.calculate_score (letter case)',
+                          'stylesheet.resolve_value_keywords']}
+
+
 def jobs(tier):
     q = tier == 'quick'
     out = []
@@ -295,6 +324,7 @@ def jobs(tier):
                            shape='H', bound='table-exhaustive', budget=1500, weight=400))
         out.append(Job('C06-b/function-keywords/%s' % syn, 'vf.props.c06:mk_function_keywords', dict(syntax=syn), shape='H',
                        bound='table-exhaustive x 3 modes', budget=1500, weight=350))
+    out.append(Job('C06-c/user-keywords', 'vf.props.c06:mk_user_keywords', {}, shape='H', bound='9 keywords x 3 cases', budget=900, weight=200))
     out.append(Job('C06-c/user-raw', 'vf.props.c06:mk_user_raw', {}, shape='H', bound='5 bodies x 9 placeholders', budget=900, weight=200))
     for part in range(4):
         out.append(Job('C06-c/user-pairs/part%d' % part, 'vf.props.c06:mk_user_pairs', dict(part=part, nparts=4), shape='H',
